@@ -10,6 +10,12 @@ from checks import common as C
 def main() -> int:
     prop, path = sys.argv[1], sys.argv[2]
     doc = json.loads(open(path).read())
+    if doc["replay"].get("op") == "c18":
+        from checks import c18
+
+        rc = c18.replay_file(doc)
+        print(f"VIOLATION property={prop} replay={path}  key={doc.get('key')}" if rc else "replay: no violation reproduced")
+        return rc
     job = {k: v for k, v in doc["replay"].items() if k != "label"}
     rr = C.replay_batch([job])[0]
     label = doc["replay"].get("label")
